@@ -26,6 +26,8 @@ class ParsingContext:
     parsed_schemas: dict[str, IRSchema] = field(default_factory=dict)
     # Raw (declared) schema name -> key it is registered under in parsed_schemas (the sanitized class name, usually)
     registered_keys_by_raw_name: dict[str, str] = field(default_factory=dict)
+    # Name made up for an inline schema -> the document node it was made up for
+    invented_schema_nodes: dict[str, Any] = field(default_factory=dict)
     visited_refs: Set[str] = field(default_factory=set)
     global_schema_names: Set[str] = field(default_factory=set)
     package_root_name: str | None = None
